@@ -25,10 +25,11 @@ pub fn record(args: &[String]) {
 	let seed: u64 = arg(args, 0, "seed");
 	let steps: u64 = arg(args, 1, "steps");
 	let mut tw = TraceWriter::create(&args[2]);
+	let small = args.get(3).map(String::as_str) == Some("small");
 	let mut rng = Rng::new(seed ^ 0x50a4);
 	for subject in FIR.iter().chain(IIR.iter()) {
 		for &n in &[2u64, 3, 10, 50] {
-			if *subject == "WSMA" && n > 120 {
+			if (*subject == "WSMA" && n > 120) || (small && n > 10 && IIR.contains(subject)) {
 				continue;
 			}
 			let p = json!([n]);
